@@ -185,6 +185,42 @@ pub fn check_float<I: FloatInner>(vt: &'static Vt<I>, ctx: &Ctx) -> DeclReport {
     let strat = if vt.arbitrary.is_some() { prop_oneof![bits_strat, arb_strat].boxed() } else { bits_strat.boxed() };
     drive(ctx, &info, &mut rep, attempts, Some(strat), ctx.n_random(2000, 200_000), &eval_a);
 
+    // thorough tier: ALL 2^32 bit patterns through try_new / TryFrom for f32 declarations
+    if ctx.tier == Tier::Thorough && ctx.case.is_none() && I::BYTES == 4 {
+        let mut bad: Option<u64> = None;
+        let mut n = 0u64;
+        let mut nonfinite = 0u64;
+        for bits in 0..=u32::MAX as u64 {
+            let raw = I::from_bits64(bits);
+            n += 1;
+            if !raw.is_finite_() {
+                nonfinite += 1;
+            }
+            let got = no_panic(|| (vt.ctor)(raw));
+            let got2 = vt.try_from.map(|f| no_panic(|| f(raw)));
+            for g in [Some(got), got2].into_iter().flatten() {
+                if let Ok(Ok(v)) = g {
+                    if !v.is_finite_() && bad.is_none() {
+                        bad = Some(bits);
+                    }
+                }
+            }
+        }
+        rep.evaluations += n;
+        rep.nontrivial += nonfinite;
+        rep.class_n("exhaustive-f32", n);
+        rep.exhaustive = true;
+        if let Some(bits) = bad {
+            let raw = I::from_bits64(bits);
+            let mut w = Default::default();
+            rep.viol(
+                Viol { prop: "C12".into(), decl_id: vt.id.into(), type_name: vt.type_name.into(), decl: vt.decl.into(), signature: sig("non-finite-value-obtained", "try_new|exhaustive"), case: json!({"entry": "try_new", "payload_hex": hex(&bits.to_le_bytes()[..4]), "payload_text": ""}), expected: "no value / a finite value".into(), actual: format!("{}", raw.to_json()), shrunk: "enumeration-minimum".into() },
+                0,
+                &mut w,
+            );
+        }
+    }
+
     // (b) order laws on obtainable values. Operands are *raw* inputs the constructor accepts; the
     // oracle compares with the inner values the constructor actually stored for them.
     let (Some(cmpf), Some(pcmpf), Some(eqf)) = (vt.cmp, vt.partial_cmp, vt.eq) else { return rep };
